@@ -35,11 +35,13 @@ from contracts import c02_text as T
 from contracts.c02_text import NW, SQ, S, I, B, lit
 
 # ----------------------------------------------------------------- definitions --
-DEFS: dict = {}          # function name -> (decl, fn(*args) -> [facts])
+DEFS: dict = {}          # function name -> (decl, fn(*args) -> [facts], aux)
 
 
-def define(decl, facts_fn):
-    DEFS[decl.name()] = (decl, facts_fn)
+def define(decl, facts_fn, aux=False):
+    """aux=False: a spec function proper (unfolded only where it occurs in the VC itself);
+    aux=True: an item-level / auxiliary definition (also unfolded where an unfolding introduces it)."""
+    DEFS[decl.name()] = (decl, facts_fn, aux)
     return decl
 
 
@@ -79,13 +81,15 @@ def unfold(terms, rounds=3):
     """Instances of the definitions at every application occurring in `terms`."""
     facts, done = [], set()
     frontier = list(terms)
-    for _ in range(rounds):
+    for rnd in range(rounds):
         new = []
         for a in _apps(frontier, DEFS):
             if a.get_id() in done or _has_var(a):
                 continue
+            _decl, fn, aux = DEFS[a.decl().name()]
+            if rnd > 0 and not aux:
+                continue
             done.add(a.get_id())
-            _decl, fn = DEFS[a.decl().name()]
             fs = fn(*a.children())
             new.extend(fs)
         if not new:
@@ -103,38 +107,17 @@ class Conj(list):
 
 
 # ---------------------------------------------------------------------- slist --
-def mk_slist(ex, st, n, cat, sqj, fresh=True):
-    return VRef(st.alloc(HeapObj("slist", {"n": n, "cat": cat, "sqj": sqj}, None, fresh), ex.refs))
+def mk_slist(ex, st, n, cat, lead, fresh=True):
+    return VRef(st.alloc(HeapObj("slist", {"n": n, "cat": cat, "lead": lead}, None, fresh), ex.refs))
 
 
-def sq_join_blank(items):
-    """D-form of the blank-separated join of sq-images."""
+def lead_of_items(items):
+    """Leading-blank normal form of the blank-separated join of sq-images: every item preceded by one blank."""
     out = []
-    for k, x in enumerate(items):
-        if k:
-            out.append(lit(" "))
+    for x in items:
+        out.append(lit(" "))
         out.append(SQ(x))
-    return T._concat(T._merge_sq([y for x in out for y in T._flat(x)])) if out else lit("")
-
-
-def sqj_append(n, sqj, x_sq):
-    """sqj of list + [x]  (x_sq = D-form of sq(x))."""
-    c = z3.simplify(n == 0)
-    if z3.is_true(c):
-        return x_sq
-    if z3.is_false(c):
-        return SQ_cat(sqj, lit(" "), x_sq)
-    return z3.If(n == 0, x_sq, SQ_cat(sqj, lit(" "), x_sq))
-
-
-def sqj_extend(n, sqj, m, sqj2):
-    c1, c2 = z3.simplify(n == 0), z3.simplify(m == 0)
-    if z3.is_true(c1):
-        return sqj2
-    if z3.is_true(c2):
-        return sqj
-    both = SQ_cat(sqj, lit(" "), sqj2)
-    return z3.If(n == 0, sqj2, z3.If(m == 0, sqj, both))
+    return SQ_cat(*out) if out else lit("")
 
 
 def SQ_cat(*ms):
@@ -145,14 +128,19 @@ def SQ_cat(*ms):
     return T._concat(T._merge_sq(parts))
 
 
+def slist_wf(n, cat, lead):
+    """Representation invariant: n, cat and lead describe one and the same list."""
+    return z3.And(n >= 0, z3.Implies(n == 0, cat == lit("")), (n == 0) == (lead == lit("")))
+
+
 def p_strlist():
     """list[str] parameter with arbitrary content (never enumerated)."""
     def mk(ex, st, name):
         n = z3.Int(f"{name}.len")
-        cat, sqj = z3.String(f"{name}.cat"), z3.String(f"{name}.sqj")
-        st.assume(z3.And(n >= 0, z3.Implies(n == 0, z3.And(cat == lit(""), sqj == lit("")))))
-        return mk_slist(ex, st, n, cat, sqj, fresh=False)
-    m = Maker(mk, desc="list[str] of symbolic length (n, ''.join, blank-separated sq-join)")
+        cat, lead = z3.String(f"{name}.cat"), z3.String(f"{name}.lead")
+        st.assume(slist_wf(n, cat, lead))
+        return mk_slist(ex, st, n, cat, lead, fresh=False)
+    m = Maker(mk, desc="list[str] of symbolic length (n, ''.join, blank-prefixed sq-images)")
     m.slist = True
     return m
 
@@ -356,16 +344,19 @@ class C02Executor(Executor):
         if o.kind == "list" and o.data is not None and all(isinstance(x, VStr) for x in o.data):
             items = [x.t for x in o.data]
             cat = T._concat([y for x in items for y in T._flat(x)])
-            st.heap[v.ref] = HeapObj("slist", {"n": z3.IntVal(len(items)), "cat": cat, "sqj": sq_join_blank(items)}, None, o.fresh)
+            st.heap[v.ref] = HeapObj("slist", {"n": z3.IntVal(len(items)), "cat": cat, "lead": lead_of_items(items)}, None, o.fresh)
             return True
         return False
 
     def slist_havoc(self, st, ref, name="h"):
         o = st.heap[ref]
         n = z3.Int(fresh_name(f"{name}.len"))
-        cat, sqj = z3.String(fresh_name(f"{name}.cat")), z3.String(fresh_name(f"{name}.sqj"))
-        st.heap[ref] = HeapObj("slist", {"n": n, "cat": cat, "sqj": sqj}, None, o.fresh)
-        st.assume(n >= 0)
+        cat, lead = z3.String(fresh_name(f"{name}.cat")), z3.String(fresh_name(f"{name}.lead"))
+        st.heap[ref] = HeapObj("slist", {"n": n, "cat": cat, "lead": lead}, None, o.fresh)
+        st.assume(slist_wf(n, cat, lead))
+        # the loop-exit state is rebuilt from the pre-loop path condition (symex.symbolic_for), so the representation
+        # invariant of the fresh symbols is also kept as an axiom about them
+        self.extra_axioms.append(slist_wf(n, cat, lead))
 
     def list_method(self, st, obj, name, args, kwargs, node):
         d = slist_of(st, obj)
@@ -383,7 +374,7 @@ class C02Executor(Executor):
             self.note_store(st, obj.ref, node)
             w = st.wobj(obj.ref)
             w.data = dict(n=z3.simplify(d["n"] + 1), cat=T._concat(T._flat(d["cat"]) + T._flat(x.t)),
-                          sqj=sqj_append(d["n"], d["sqj"], SQ(x.t)))
+                          lead=SQ_cat(d["lead"], lit(" "), SQ(x.t)))
             return [(st, NONE)]
         if name == "extend" and len(args) == 1:
             other = slist_of(st, args[0])
@@ -398,7 +389,7 @@ class C02Executor(Executor):
             self.note_store(st, obj.ref, node)
             w = st.wobj(obj.ref)
             w.data = dict(n=z3.simplify(d["n"] + other["n"]), cat=T._concat(T._flat(d["cat"]) + T._flat(other["cat"])),
-                          sqj=sqj_extend(d["n"], d["sqj"], other["n"], other["sqj"]))
+                          lead=SQ_cat(d["lead"], other["lead"]))
             return [(st, NONE)]
         raise Unsupported(f"{self.loc(node)} list.{name} on a str list of symbolic length")
 
@@ -491,8 +482,7 @@ def m_join(ex, st, args, kwargs, node):
     r = z3.String(fresh_name("joined"))
     if c is not None and c.strip() == "":
         st.assume(NW(r) == NW(d["cat"]))
-        st.assume(SQ(r) == d["sqj"])
-        st.assume(z3.Implies(d["n"] == 0, r == lit("")))
+        st.assume(z3.If(d["n"] == 0, r == lit(""), SQ_cat(lit(" "), SQ(r)) == d["lead"]))
     return [(st, VStr(r))]
 
 
@@ -519,7 +509,7 @@ ASSUMED_MODELS = ET.ASSUMED + [
     "str.strip/lstrip/rstrip, str.ljust/rjust, re.compile(r'\\s+').sub(' ', .): uninterpreted; only the laws nw(f(x)) == nw(x), "
     "sq(strip x) == trim(sq x), sq(ws_sub x) == sq(x) are used (contracts/c02_text.py)",
     "str.join over a str list of symbolic length: sep == '' -> exact concatenation; whitespace sep -> fresh R with nw(R) == nw(''.join) "
-    "and sq(R) == blank-separated sq-join",
+    "and ' ' + sq(R) == the blank-prefixed sq-images of the items ('' for the empty list)",
     "int(str): raises ValueError iff not int_parses(s), else int_value(s); int('1') == 1",
     "str * n for symbolic n: '' if n <= 0 else str_repeat(s, n)",
     "set[str] parameters: membership only; the empty set is unique (extensionality), so `s or set()` == s",
